@@ -445,6 +445,9 @@ class HttpProxyPlugin(HttpProtocolHandlerPlugin):
                     )
                 self.pipeline_request.parse(raw)
                 if self.pipeline_request.is_complete:
+                    # Bytes following this request belong to the next one
+                    remainder = self.pipeline_request.buffer
+                    self.pipeline_request.buffer = None
                     for plugin in self.plugins.values():
                         assert self.pipeline_request is not None
                         r = plugin.handle_client_request(self.pipeline_request)
@@ -473,6 +476,8 @@ class HttpProxyPlugin(HttpProtocolHandlerPlugin):
                     )
                     if not self.pipeline_request.is_connection_upgrade:
                         self.pipeline_request = None
+                    if remainder:
+                        self.on_client_data(remainder)
             # For scenarios where we cannot peek into the data,
             # simply queue for upstream server.
             else:
